@@ -1,16 +1,33 @@
 /*
  * White-box harness for the model/C tie of C03 / C12 (lib/mem_tie.py).
- * Includes vnaproperty.c to reach the static list functions; build with exclude=("vnaproperty.c",)
- * and wrap=True.  Script (one op per line):  <k> <obj> <op> [args]
+ * Includes vnaproperty.c and vnacal_new_parameter.c to reach the static list / map / hash functions;
+ * build with exclude=("vnaproperty.c", "vnacal_new_parameter.c") and wrap=True.
+ * Script (one op per line):  <k> <obj> <op> [args]
  *   k = -1: no fault; k >= 0: request number k+1 made by the library during this op fails.
  *   L new | L append | L set i | L insert i | L delete i | L get i | L free
  *   P new | P alloc | P delete i | P free
  *   D new perf | D resize rows cols freqs | D free   (vnadata_alloc [+ per-frequency z0 flag], vnadata_resize(VPT_UNDEF,...), vnadata_free)
  *   A type frows fcols brows bcols srows scols      (vnacal_new_add_mapped_matrix_m, port_map NULL)
+ *   H new nparams | H get p | H find p | H free
+ *        the parameter hash of a vnacal_new_t (vn_parameter_hash): new = _vnacal_new_init_parameter_hash on a
+ *        vnacal_t holding nparams scalar parameters, get = _vnacal_new_get_parameter, find = hash_lookup (p < 0:
+ *        the "parameter >= 0 &&" guard of the callers), free = _vnacal_new_free_parameter_hash
+ *   M new | M set rank hv hexname | M get rank hv hexname | M del rank hv hexname | M keys | M free
+ *        one vnaproperty map: map_alloc, map_subtree(add), map_subtree(no add), map_delete, vnaproperty_keys,
+ *        vnaproperty_free; rank = position of (crc32c(name), name) in the order of map_compare_keys (given by the
+ *        script, checked here against map_compare_keys), hv = crc32c(name) (checked against the library's crc32c)
  * Output per op:  <ret class> <errno class> <live blocks of the object>
+ *   H and M ops append:  | <allocation> <count> | <bucket>:<key>,<key>... (chains in link order, non-empty buckets)
+ *   M ops append:  | <keys in order-list order>      and M keys:  | <keys returned>
  */
 #define _GNU_SOURCE
 #include "vnaproperty.c"
+/* archdep.h has no include guard: its only definition (struct list / list_t) is renamed for the second inclusion */
+#define list verif_list_again
+#define list_t verif_list_again_t
+#include "vnacal_new_parameter.c"
+#undef list
+#undef list_t
 #include <complex.h>
 #include <vnacal.h>
 #include "vnacal_internal.h"
@@ -36,9 +53,80 @@ static int install(vnaproperty_t **anchor)
     return 0;
 }
 
+/* ------------------------------------------------------------------ parameter hash */
+static void dump_phash(const vnacal_new_parameter_hash_t *hp)
+{
+    printf(" | %d %d |", hp->vnph_allocation, hp->vnph_count);
+    for (int b = 0; hp->vnph_table != NULL && b < hp->vnph_allocation; ++b) {
+	const vnacal_new_parameter_t *p = hp->vnph_table[b];
+	if (p == NULL) continue;
+	printf(" %d:", b);
+	for (int first = 1; p != NULL; p = p->vnpr_hash_next, first = 0)
+	    printf("%s%d", first ? "" : ",", VNACAL_GET_PARAMETER_INDEX(p->vnpr_parameter));
+    }
+}
+
+/* ------------------------------------------------------------------ property map */
+#define MAXKEYS 4096
+static struct { char *name; long rank; } keytab[MAXKEYS];
+static int nkeys = 0;
+
+static char *unhex(const char *h)
+{
+    size_t n = strlen(h) / 2;
+    char *s = malloc(n + 1);
+    for (size_t i = 0; i < n; ++i) { unsigned v; sscanf(h + 2 * i, "%2x", &v); s[i] = (char)v; }
+    s[n] = 0;
+    return s;
+}
+static long rank_of(const char *name)
+{
+    for (int i = 0; i < nkeys; ++i) if (!strcmp(keytab[i].name, name)) return keytab[i].rank;
+    return -1;
+}
+/* remember (name, rank); check that the rank order is the order of map_compare_keys */
+static int learn_key(const char *name, long rank, unsigned long hv)
+{
+    uint32_t h = crc32c(-1, (void *)name, strlen(name));
+    if ((unsigned long)h != hv) return -1;
+    if (rank_of(name) >= 0) return rank_of(name) == rank ? 0 : -1;
+    if (nkeys >= MAXKEYS) return -1;
+    for (int i = 0; i < nkeys; ++i) {
+	vnaproperty_map_element_t e;
+	memset(&e, 0, sizeof e);
+	e.vme_pair.vmpr_key = keytab[i].name;
+	e.vme_hashval = crc32c(-1, (void *)keytab[i].name, strlen(keytab[i].name));
+	int c = map_compare_keys(name, h, &e);
+	if ((c < 0) != (rank < keytab[i].rank) || c == 0) return -1;
+    }
+    keytab[nkeys].name = strdup(name);
+    keytab[nkeys].rank = rank;
+    ++nkeys;
+    return 0;
+}
+static void dump_map(const vnaproperty_map_t *mp)
+{
+    printf(" | %zu %zu |", mp->vpm_hash_size, mp->vpm_count);
+    for (size_t b = 0; mp->vpm_hash_table != NULL && b < mp->vpm_hash_size; ++b) {
+	const vnaproperty_map_element_t *e = mp->vpm_hash_table[b];
+	if (e == NULL) continue;
+	printf(" %zu:", b);
+	for (int first = 1; e != NULL; e = e->vme_hash_next, first = 0)
+	    printf("%s%ld", first ? "" : ",", rank_of(e->vme_pair.vmpr_key));
+    }
+    printf(" |");
+    for (const vnaproperty_map_element_t *e = mp->vpm_order_head; e != NULL; e = e->vme_order_next)
+	printf(" %ld", rank_of(e->vme_pair.vmpr_key));
+}
+
 int main(int argc, char **argv)
 {
-    char line[256];
+    char line[1024];
+    vnacal_t *hvcp = NULL;
+    vnacal_new_t *hvnp = NULL;
+    int hlive_ok = 0;
+    vnaproperty_t *map = NULL;
+    long hbase = 0, mbase = 0;
     vnaproperty_t *list = NULL;
     vnacal_t *vcp = NULL;
     vnadata_t *vdp = NULL;
@@ -47,11 +135,13 @@ int main(int argc, char **argv)
     if (fp == NULL) return 2;
     setvbuf(stdout, NULL, _IOLBF, 0);
     while (fgets(line, sizeof line, fp) != NULL) {
-	long k; char obj[8], op[16]; long a[8] = {0};
+	long k; char obj[8], op[16]; long a[8] = {0}; char hexname[600] = "";
 	int n = sscanf(line, "%ld %7s %15s %ld %ld %ld %ld %ld %ld %ld", &k, obj, op, &a[0], &a[1], &a[2], &a[3], &a[4], &a[5], &a[6]);
 	if (n < 3) continue;
+	if (obj[0] == 'M') sscanf(line, "%*d %*s %*s %*d %*d %599s", hexname);
 	int rc = 0;
 	long live = 0;
+	char tail[8] = "";
 	verif_alloc_reset(k >= 0 ? k + 1 : 0);
 	errno = 0;
 	verif_alloc_track(1);
@@ -93,6 +183,68 @@ int main(int argc, char **argv)
 	    else if (!strcmp(op, "free")) { vnadata_free(vdp); vdp = NULL; rc = 0; }
 	    verif_alloc_track(0);
 	    live = verif_live_blocks() - dbase;
+	} else if (obj[0] == 'H') {
+	    if (!strcmp(op, "new")) {
+		verif_alloc_track(0);
+		if (hvcp != NULL) { vnacal_free(hvcp); hvcp = NULL; hvnp = NULL; }
+		hvcp = vnacal_create(NULL, NULL);
+		for (long i = 0; i < a[0]; ++i) (void)vnacal_make_scalar_parameter(hvcp, 0.5);
+		hvnp = vnacal_new_alloc(hvcp, VNACAL_T8, 1, 1, 1);
+		_vnacal_new_free_parameter_hash(&hvnp->vn_parameter_hash);
+		hbase = verif_live_blocks();
+		verif_alloc_reset(k >= 0 ? k + 1 : 0);
+		errno = 0;
+		verif_alloc_track(1);
+		rc = _vnacal_new_init_parameter_hash("tie", &hvnp->vn_parameter_hash);
+		hlive_ok = (rc == 0);
+	    }
+	    else if (hvnp == NULL || !hlive_ok) { rc = -2; }
+	    else if (!strcmp(op, "get")) { rc = _vnacal_new_get_parameter("tie", hvnp, (int)a[0]) != NULL ? 0 : -1; }
+	    else if (!strcmp(op, "find")) {
+		if (a[0] < 0) { rc = -1; errno = EINVAL; }
+		else if (hash_lookup(&hvnp->vn_parameter_hash, (int)a[0]) != NULL) rc = 0;
+		else { rc = -1; errno = ENOENT; }
+	    }
+	    else if (!strcmp(op, "free")) { _vnacal_new_free_parameter_hash(&hvnp->vn_parameter_hash); hlive_ok = 0; rc = 0; }
+	    int e = errno;
+	    verif_alloc_track(0);
+	    live = verif_live_blocks() - hbase;
+	    if (rc != -2) { strcpy(tail, "H"); }
+	    if (rc == -2 || !hlive_ok) tail[0] = 0;
+	    errno = e;
+	} else if (obj[0] == 'M') {
+	    verif_alloc_track(0);
+	    char *name = hexname[0] ? unhex(hexname) : NULL;
+	    const char **keys = NULL;
+	    verif_alloc_track(1);
+	    if (!strcmp(op, "new")) { mbase = verif_live_blocks(); map = map_alloc(); rc = map ? 0 : -1; }
+	    else if (map == NULL) { rc = -2; }
+	    else if (!strcmp(op, "set") || !strcmp(op, "get") || !strcmp(op, "del")) {
+		verif_alloc_track(0);
+		if (name == NULL || learn_key(name, a[0], (unsigned long)a[1]) != 0) { rc = -3; }
+		else {
+		    verif_alloc_track(1);
+		    if (!strcmp(op, "set")) rc = map_subtree(map, true, name) != NULL ? 0 : -1;
+		    else if (!strcmp(op, "get")) rc = map_subtree(map, false, name) != NULL ? 0 : -1;
+		    else rc = map_delete(map, name);
+		}
+	    }
+	    else if (!strcmp(op, "keys")) { keys = vnaproperty_keys(map, "."); rc = keys ? 0 : -1; }
+	    else if (!strcmp(op, "free")) { vnaproperty_free(map); map = NULL; rc = 0; }
+	    int e = errno;
+	    verif_alloc_track(0);
+	    live = verif_live_blocks() - mbase - (keys != NULL ? 1 : 0);
+	    if (rc == -3) { printf("BADKEY %s\n", hexname); free(name); continue; }
+	    printf("%s %s %ld", rc == 0 ? "Done" : rc == -2 ? "SKIP" : "Err", rc == -1 ? ecls(e) : "E0", rc == -2 ? 0 : live);
+	    if (map != NULL && rc != -2) dump_map((vnaproperty_map_t *)map);
+	    if (!strcmp(op, "keys") && rc != -2) {
+		printf(" |");
+		for (const char **cpp = keys; cpp != NULL && *cpp != NULL; ++cpp) printf(" %ld", rank_of(*cpp));
+	    }
+	    printf("\n");
+	    free((void *)keys);
+	    free(name);
+	    continue;
 	} else if (obj[0] == 'A') {
 	    int type = (int)strtol(op, NULL, 10);
 	    int fr = (int)a[0], fc = (int)a[1], br = (int)a[2], bc = (int)a[3], sr = (int)a[4], sc = (int)a[5];
@@ -118,8 +270,12 @@ int main(int argc, char **argv)
 	}
 	int e = errno;
 	verif_alloc_track(0);
-	printf("%s %s %ld\n", rc == 0 ? "Done" : rc == -2 ? "SKIP" : "Err", rc == -1 ? ecls(e) : "E0", rc == -2 ? 0 : live);
+	printf("%s %s %ld", rc == 0 ? "Done" : rc == -2 ? "SKIP" : "Err", rc == -1 ? ecls(e) : "E0", rc == -2 ? 0 : live);
+	if (tail[0] == 'H') dump_phash(&hvnp->vn_parameter_hash);
+	printf("\n");
     }
+    if (hvcp != NULL) vnacal_free(hvcp);
+    if (map != NULL) vnaproperty_free(map);
     if (list != NULL) vnaproperty_free(list);
     if (vcp != NULL) vnacal_free(vcp);
     if (vdp != NULL) vnadata_free(vdp);
